@@ -267,3 +267,79 @@ def r19_4_depths(ck, P, accepted_formats):
             ck.ok(R, 'format 0x%x (%d bpp) handled by %s' % (code, bpp, portable.name))
         else:
             ck.violation(R, portable.name, 'depth %d' % bpp, 'color_to_pixel accepts format 0x%x but %s refuses %d bpp (accepts %s): the direct fill silently does nothing on the portable chain' % (code, portable.name, bpp, sorted(acc)), portable.unit.name)
+
+
+def r19_6_op_reduction(ck, P):
+    """the only rewrites of the operator in front of the direct fill"""
+    R = ck.rule('C19-R6', 'pixman_image_fill_boxes replaces the operator by SRC only for OVER with a colour whose alpha equals the all-ones value of its type, or for CLEAR together with an all-zero colour', floor=2)
+    f = P.fn('pixman_image_fill_boxes', required=False)
+    if f is None:
+        ck.incomplete(R, 'pixman_image_fill_boxes not found'); return
+    ck.saw(f)
+    SRC = P.enum_const('PIXMAN_OP_SRC'); OVER = P.enum_const('PIXMAN_OP_OVER'); CLEAR = P.enum_const('PIXMAN_OP_CLEAR')
+    op_arg = [i for i, (n, t) in enumerate(f.params) if n == 'op']
+    if not op_arg:
+        ck.incomplete(R, 'parameter op not found'); return
+    op_arg = op_arg[0]
+
+    def is_op(o, seen=()):
+        if o[:2] == ['a', op_arg]:
+            return True
+        x = f.v(o)
+        if x is not None and x.op == 'phi' and x.i not in seen:
+            return any(is_op(a, seen + (x.i,)) for a in x.a)
+        return False
+
+    n = 0
+    for x in f.insts():
+        if x.op != 'phi' or not any(is_op(a) for a in x.a):
+            continue
+        for a, bb in zip(x.a, x.d['bb']):
+            if a[0] != 'c':
+                continue
+            n += 1
+            if int(a[1]) != SRC:
+                ck.violation(R, f.name, 'operator rewritten to %d' % int(a[1]), 'pixman_image_fill_boxes rewrites the operator to %d; only the reduction to SRC is justified' % int(a[1]), x.loc()); continue
+            conds = []
+            for t, s_ in f.guard_edges(bb) | ({(f.blocks[bb].term, x.bb.id)} if f.blocks[bb].term.a else set()):
+                if t.op != 'br' or not t.a:
+                    continue
+                c, pred, ops = f.cond(t.a[0])
+                if c is None or c.op != 'icmp':
+                    continue
+                taken_true = t.d['succ'][0] == s_
+                if pred == 'ne':
+                    pred = 'eq'; taken_true = not taken_true
+                if pred == 'eq' and taken_true:
+                    conds.append(ops)
+                elif pred in ('eq',):
+                    pass
+                else:
+                    conds.append(('other', pred, ops, taken_true))
+            eq_op = {int(o2[1]) for ops in conds if isinstance(ops, list) for o1, o2 in (ops, ops[::-1]) if is_op(o1) and o2[0] == 'c'}
+            alpha_ok = False; alpha_seen = None
+            for ops in conds:
+                if isinstance(ops, tuple):
+                    _, pred, oo, tt = ops
+                    if any(('field', 'pixman_color.alpha') in f.atoms(o) for o in oo if o[0] == 'v'):
+                        alpha_seen = 'alpha compared with %s (edge taken when %s)' % (pred, tt)
+                    continue
+                for o1, o2 in (ops, ops[::-1]):
+                    if o1[0] == 'v' and ('field', 'pixman_color.alpha') in f.atoms(o1) and o2[0] == 'c':
+                        ld = f.v(f.strip_casts(o1))
+                        bits = int(ld.ty[1:]) if ld is not None and ld.op == 'load' and ld.ty.startswith('i') else None
+                        alpha_seen = 'alpha == 0x%x' % int(o2[1])
+                        if bits and int(o2[1]) == (1 << bits) - 1:
+                            alpha_ok = True
+            if OVER in eq_op and alpha_ok:
+                ck.ok(R, 'OVER -> SRC under alpha == all-ones'); continue
+            if CLEAR in eq_op:
+                # the colour handed on from this block must be a local whose four channels are stored as zero here
+                zero = [y for y in f.blocks[bb].insts if y.op == 'store' and y.a[0][0] == 'c' and int(y.a[0][1]) == 0 and f.last_field(f.path(y.a[1])) and f.last_field(f.path(y.a[1])).startswith('pixman_color.')]
+                chans = {f.last_field(f.path(y.a[1])) for y in zero}
+                if len(chans) == 4:
+                    ck.ok(R, 'CLEAR -> SRC with an all-zero colour'); continue
+                ck.violation(R, f.name, 'CLEAR reduced to SRC', 'CLEAR is rewritten to SRC but only %d of the 4 colour channels are set to zero' % len(chans), x.loc()); continue
+            ck.violation(R, f.name, 'operator reduced to SRC', 'the operator is rewritten to SRC under a condition that is neither (op == OVER and alpha == all-ones) nor (op == CLEAR with a zero colour): %s; operators tested: %s' % (alpha_seen or 'no alpha test', sorted(eq_op)), x.loc())
+    if n == 0:
+        ck.incomplete(R, 'no operator rewrite found in pixman_image_fill_boxes')
